@@ -168,8 +168,11 @@ def handle (c : Case) : CaseOut := Id.run do
         | none => verdict := .fail s!"solver {i}: the Dinic model does not return on this graph (model-out-of-fuel)"
         | some (ph, bits) =>
           let recorded := (procs.getD i ⟨[], 0⟩).phases
-          if ph != recorded then
-            verdict := .fail s!"solver {i}: phase flows of the real unbounded run {recorded} differ from the Dinic model's {ph}"
+          -- Which blocking flow a phase finds (hence the intermediate phase flows, and how often the bound is
+          -- consulted) is a free choice of the implementation; what the property determines is the END of the
+          -- sequence: the unbounded run's last accumulated flow is THE maximum flow (the model's, by C01's theorem)
+          if recorded.getLast?.getD 0 != ph.getLast?.getD 0 then
+            verdict := .fail s!"solver {i}: the real unbounded run ends with flow {recorded.getLast?.getD 0}, the maximum flow is {ph.getLast?.getD 0} (phase flows {recorded}, Dinic model {ph})"
           else
             let want := String.join (bits.map fun b => if b then "1" else "0")
             for l in c.impl do
